@@ -98,34 +98,7 @@ def run(ctx: Ctx):
             continue
         rets = sorted({_av11.flatten(leaf) if _av11._is_str(leaf) else _av11.show(leaf) for _c, leaf in _br11(tv_)}) if tv_ is not None else []
         ctx.check(rets == [lit], "R11.a", f"writer::{cname}::literal", f"{cname} -> {lit}", f".ode writer prints {cname} as {rets}", f.where() if f else "")
-    pw = M.method("ode", "_print_Piecewise")
-    frs = pm.fragments(pw)
-    okpw = "Conditional(" in frs and any(isinstance(n, ast.For) and norm(n.iter) == "zip(conds, exprs)" for n in ast.walk(pw.node)) and any(isinstance(n, ast.If) and norm(n.test).replace('"', "'") == "c == '1'" for n in ast.walk(pw.node))
-    closes = [n for n in ast.walk(pw.node) if isinstance(n, ast.BinOp) and isinstance(n.op, ast.Mult) and const_str(n.left) == ")"]
-    okpw = okpw and bool(closes) and norm(closes[0].right) == "len(conds) - 1"
-    anchor = any(isinstance(n, ast.For) and norm(n.iter) == "zip(conds, exprs)" for n in ast.walk(pw.node))
-    try:
-        in_value = any("Conditional(" in t_ for t_ in _u11.strings_in(_u11.value_of(ctx, pw)))
-    except Exception:
-        in_value = False
-    if not anchor and (any("Conditional(" in fr for fr in frs) or in_value):
-        ctx.undecided("R11.a", pw.key("nesting"), "the nested Conditional(...) text is not built by the known loop over zip(conds, exprs); pairing and closing parentheses are not judged", pw.where())
-    else:
-        ctx.check(okpw, "R11.a", pw.key("nesting"), "nested Conditional(c, e, Conditional(...)) closed once per pair", "writer _print_Piecewise: pairs are not written as nested Conditional(c, e, ...) with the default as last argument", pw.where())
-    # every path through the method writes a Conditional(...): a path that returns something else (a bare condition
-    # for a 0/1 indicator, say) writes text the loader reads differently in some contexts
-    from .c03 import _branches as _brpw
-
-    pwv = _u11.value_of(ctx, pw)
-    odd = []
-    for _c, leaf in _brpw(pwv):
-        if leaf[0] == "raise" or _av11.has_unk(leaf):
-            continue
-        if any(c_[0] == "not" and c_[1][0] == "slice" and c_[1][3] == _av11.C(-1) for c_ in _c):
-            continue  # the path of a Piecewise with the default branch only (sympy folds those away before printing)
-        if not any("Conditional(" in t_ for t_ in _u11.strings_in(leaf)):
-            odd.append(leaf)
-    ctx.check(not odd, "R11.a", pw.key("always-conditional"), "every path writes Conditional(...)", f"writer _print_Piecewise returns `{_av11.show(odd[0])[:100] if odd else ''}` on some path, which is not a Conditional(...) text: a Piecewise saved in another form is not read back as the same Piecewise in every context", pw.where())
+    check_writer_piecewise(ctx, "R11.a", M)
     printers.check_not_normalised(ctx, "R11.a")
 
     # reader side: generic function application uses every argument
@@ -159,6 +132,59 @@ def run(ctx: Ctx):
     check_writer_sections(ctx, "R11.b", cls)
     check_comment_header(ctx, "R11.b", cls)
     check_writer_helpers(ctx, "R11.b")
+
+
+def check_writer_piecewise(ctx: Ctx, rule: str, M=None):
+    """The writer's _print_Piecewise: pairs become nested Conditional(c, e, <rest>) with the *first* pair outermost
+    (Piecewise takes the first condition that holds), the default last, every path a Conditional(...)."""
+    from sa import av as _av11
+
+    from . import util as _u11
+
+    if M is None:
+        M = printers.model(ctx)
+    pw = M.method("ode", "_print_Piecewise")
+    frs = pm.fragments(pw)
+    okpw = "Conditional(" in frs and any(isinstance(n, ast.For) and norm(n.iter) == "zip(conds, exprs)" for n in ast.walk(pw.node)) and any(isinstance(n, ast.If) and norm(n.test).replace('"', "'") == "c == '1'" for n in ast.walk(pw.node))
+    closes = [n for n in ast.walk(pw.node) if isinstance(n, ast.BinOp) and isinstance(n.op, ast.Mult) and const_str(n.left) == ")"]
+    okpw = okpw and bool(closes) and norm(closes[0].right) == "len(conds) - 1"
+    anchor = any(isinstance(n, ast.For) and norm(n.iter) == "zip(conds, exprs)" for n in ast.walk(pw.node))
+    try:
+        in_value = any("Conditional(" in t_ for t_ in _u11.strings_in(_u11.value_of(ctx, pw)))
+    except Exception:
+        in_value = False
+    if not anchor and (any("Conditional(" in fr for fr in frs) or in_value):
+        ctx.undecided(rule, pw.key("nesting"), "the nested Conditional(...) text is not built by the known loop over zip(conds, exprs); pairing and closing parentheses are not judged", pw.where())
+    else:
+        ctx.check(okpw, rule, pw.key("nesting"), "nested Conditional(c, e, Conditional(...)) closed once per pair", "writer _print_Piecewise: pairs are not written as nested Conditional(c, e, ...) with the default as last argument", pw.where())
+    # every path through the method writes a Conditional(...): a path that returns something else (a bare condition
+    # for a 0/1 indicator, say) writes text the loader reads differently in some contexts
+    from .c03 import _branches as _brpw
+
+    pwv = _u11.value_of(ctx, pw)
+    odd = []
+    for _c, leaf in _brpw(pwv):
+        if leaf[0] == "raise" or _av11.has_unk(leaf):
+            continue
+        if any(c_[0] == "not" and c_[1][0] == "slice" and c_[1][3] == _av11.C(-1) for c_ in _c):
+            continue  # the path of a Piecewise with the default branch only (sympy folds those away before printing)
+        if not any("Conditional(" in t_ for t_ in _u11.strings_in(leaf)):
+            odd.append(leaf)
+    ctx.check(not odd, rule, pw.key("always-conditional"), "every path writes Conditional(...)", f"writer _print_Piecewise returns `{_av11.show(odd[0])[:100] if odd else ''}` on some path, which is not a Conditional(...) text: a Piecewise saved in another form is not read back as the same Piecewise in every context", pw.where())
+    # a step-by-step construction `acc = Conditional(c, e, acc)` puts the pair visited *last* outermost: it must visit
+    # the pairs back to front, otherwise the priority of overlapping conditions is reversed in the saved file
+    for fo in _av11.find_all(pwv, "fold"):
+        step = fo[4] if len(fo) > 4 else None
+        if step is None or step[0] != "s" or not any(p_[0] == "lit" and "Conditional(" in p_[1] for p_ in step[1]):
+            continue
+        holes = [p_[1] for p_ in step[1] if p_[0] == "h"]
+        acc_pos = [i for i, h_ in enumerate(holes) if h_[0] == "acc"]
+        if not acc_pos:
+            continue
+        acc_last = acc_pos[0] == len(holes) - 1
+        seq_txt = _av11.show(fo[2])
+        backwards = "reversed(" in seq_txt or ", -1)" in seq_txt
+        ctx.check(acc_last == backwards, rule, pw.key("fold-direction"), "pairs are nested first-outermost", f"writer _print_Piecewise nests `{_av11.show(step)[:60]}` while visiting {seq_txt[:60]} {'back to front' if backwards else 'front to back'}: the first (condition, value) pair does not end up outermost, so where two conditions overlap the reloaded model takes another branch", pw.where())
 
 
 def check_apply_all(ctx: Ctx, rule: str):
